@@ -104,6 +104,117 @@ def block_scripts():
         yield f'body{bi}:fence-comment', '```  # open\n' + '\n'.join(body) + '\n```  # close'
 
 
+# ---- left-hand sides of every shape (C13: own errors only; accepted => builds) -----------------------------------------
+
+LHS_ATOMS = ['X', '{a}', '<e>', 'f(X)', 'f()', '`v`', '1', 'X[0]', '{a}[-1]', 'in', 'np.g(X)']
+LHS_JOINS = [',', '.', '', '+', '[0],', '][']
+LHS_WRAPS = [('', ''), ('(', ')'), ('[', ']'), ('', '[0]'), ('', '.x'), ('*', ','), ('', ',')]
+RHS_FORMS = ['1, 2', 'Z', 'Z[-1] + 1']
+
+
+def lhs_shape_scripts(full):
+    """Statements whose left-hand side is a tuple target / wrapped / subscripted call / attribute, with non-variable
+    terms before, after or instead of the variable; no whitespace inside the LHS (and a parenthesised form with
+    whitespace)."""
+    k = 0
+    for n in (1, 2, 3):
+        for atoms in itertools.product(LHS_ATOMS, repeat=n):
+            for joins in itertools.product(LHS_JOINS, repeat=n - 1):
+                k += 1
+                if n == 3 and not full and k % 9:
+                    continue
+                core = atoms[0] + ''.join(j + a for j, a in zip(joins, atoms[1:]))
+                for (a, b) in (LHS_WRAPS if n < 3 else LHS_WRAPS[:2]):
+                    rhs = RHS_FORMS[k % len(RHS_FORMS)]
+                    yield f'{a}{core}{b} = {rhs}'
+                if n == 2:
+                    yield f'({core} = 1, 2)'
+                    yield f'({atoms[0]} , {atoms[1]} = 1, 2)'
+
+
+# ---- index texts of every shape ---------------------------------------------------------------------------------------
+
+INDEX_TEXTS = [
+    '0', '1', '-1', '+1', '007', '-007', '+0', '-0', '00', '1.0', '1.', '.5', '-1.0', '+1.0', '1e0', '1E0', '1e1', '-1e1',
+    '1e309', '-1e999', '1e-1', '1e+2', '1e', 'e1', 'inf', '-inf', '+inf', 'Infinity', '-Infinity', 'nan', 'NaN', 'infinity',
+    '9' * 400, '-' + '9' * 400, '1' + '0' * 399 + '.0', '9' * 4300, '9' * 4301, '0' * 4400 + '1', '1' + '_0' * 2200,
+    '0x1', '0X1F', '0o7', '0b1', '1_0', '1__0', '_1', '1_', '1_000_000', '²', '', ' ', '\t', '  ', '[1]', '1][2', '(1)', '1,2',
+    '1:2', ':', 't', 't-1', 't+1', 'a', "'a'", '"a"', "'a", "a'", '`1`', '`a`', '``', '`', "''", "'", '"', '1 2', '- 1', '--1',
+    '+-1', '1+1', '1-1', '1j', 'True', 'None', '1L', '-', '+', '.', '1e400', '-1e400', '1' + '0' * 400 + 'e-400', '0.0', '-0.0',
+    '0e0', '1_0.0', '1f', '0_0', '-+1', '1\n', '\n1', '1\n]', "'2000'", '"2000Q1"', '`2000`', "`'a'`", '{a}', '<e>',
+]
+INDEX_TEXTS_UNICODE = ['٠', '−1', '١', '１', '１２', '-١', '१', '٣_٣', '𝟏', '1١', '\u2212' + '1', '\u00a01\u00a0', '\u20031', '1\u2028']   # outside M2's domain
+INDEX_FORMS = ['Y = X[{I}]', 'Y = {{a}}[{I}] * 2', 'Y = <e>[{I}] + 1', 'X[{I}] = 1', 'Y = X[ {I} ]', 'Y = f(X[{I}], 1)',
+               'Y = X[{I}][{I}]', 'Y = X[{I}] + Z[{I}]']
+
+
+def index_shape_scripts(texts=None):
+    for ix in (texts or INDEX_TEXTS):
+        for form in INDEX_FORMS:
+            yield form.replace('{{', '\x00').replace('}}', '\x01').replace('{I}', ix).replace('\x00', '{').replace('\x01', '}')
+
+
+# ---- the compile context: what a method body with these parameters allows, nesting and size limits of the compiler ------
+
+METHOD_NAMES = ['t', 'self', 'errors', 'iteration', 'kwargs', 'catch_first_error', '_x']
+
+
+def stress_scripts(full):
+    # statements that are valid at module / function level but not (or differently) in `_evaluate(self, t, *, ...)`
+    for kw in ('global', 'nonlocal'):
+        for n in METHOD_NAMES:
+            for body in ((f'{kw} {n}',), (f'{kw} {n}', f'{n} = 1'), (f'{n} = 1', f'{kw} {n}'), ('if True:', f'    {kw} {n}')):
+                yield '```\n' + '\n'.join(body) + '\n```'
+                yield 'Y = X\n```\n' + '\n'.join(body) + '\n```'
+    for body in (('del t',), ('del self',), ('t: int = 1',), ('errors += 1',), ('def _evaluate(self): pass',),
+                 ('lambda t: t',), ('[t for t in range(2)]',), ('class t: pass',), ('import t',), ('t = (yield)',),
+                 ('return t',), ('self = None',), ('def f():', '    nonlocal t', '    t = 1'),
+                 ('def f():', '    global t',), ('exec("global t")',), ('__debug__ = 1',), ('None = 1',), ('t := 1',)):
+        yield '```\n' + '\n'.join(body) + '\n```'
+    # nesting depth near the limits of the compiler (20 statically nested blocks, 100 indentation levels)
+    heads = {'if': 'if True:', 'for': 'for _i in range(1):', 'while': 'while False:', 'try': 'try:', 'with': 'with self:'}
+    depths = list(range(15, 25)) + list(range(93, 103)) + ([30, 50, 200] if full else [])
+    for kind, head in heads.items():
+        for d in depths:
+            if kind != 'if' and d > 30:
+                continue
+            lines = []
+            for i in range(d):
+                lines.append('    ' * i + head)
+            lines.append('    ' * d + 'pass')
+            if kind == 'try':
+                for i in reversed(range(d)):
+                    lines.append('    ' * i + 'except Exception:')
+                    lines.append('    ' * (i + 1) + 'pass')
+            yield '```\n' + '\n'.join(lines) + '\n```'
+            yield '```\n' + '\n'.join(' ' + ln for ln in lines) + '\n```'
+    for d in depths:
+        if d > 30:
+            yield 'Y = ' + ' if X else ('.join(['1'] * d) + ')' * (d - 1)
+    # very long operator chains and deep bracket nesting
+    sizes = [20, 100, 200, 500, 1000, 3000] + ([2000, 5000] if full else [])
+    for n in sizes:
+        yield 'Y = ' + ' + '.join(['X'] * n)
+        yield 'Y = ' + ' * '.join(['X[-1]'] * n)
+        yield 'Y = ' + ' ** '.join(['X'] * n)
+        yield 'Y = ' + '-' * n + 'X'
+        yield 'Y = ' + 'not ' * n + 'X'
+        yield 'Y = ' + '(' * n + 'X' + ')' * n
+        yield 'Y = (' + '(' * n + 'X' + ')' * n + '\n)'
+        yield 'Y = ' + 'f(' * n + 'X' + ')' * n
+        yield 'Y = ' + '[' * n + 'X' + ']' * n
+        yield 'Y = X' + '[0]' * n
+        yield 'Y = X' + '.a' * min(n, 1000)    # (the dotted-name alternative rescans the tail at every position)
+        yield 'Y = ' + ' and '.join(['X'] * n)
+        yield 'Y = ' + ' if X else '.join(['1'] * n)
+        yield 'Y = ' + ', '.join(['X'] * n)
+        yield 'Y = max(' + ', '.join(['X'] * n) + ')'
+        yield 'Y = X < ' + ' < '.join(['X'] * n)
+        yield 'Y = `' + ' + '.join(['1'] * n) + '`'
+        yield '```\n' + 'x = ' + ' + '.join(['1'] * n) + '\n```'
+        yield '\n'.join(f'V{i} = V{i + 1}[-1]' for i in range(min(n, 1000)))
+
+
 # Names that LOOK special to Python but are ordinary identifiers for the parser: every soft keyword (reflected at
 # run time: `match`, `case`, `type`, ...; `_` is in the regular pool) and builtin / conventional names used as series.
 SOFT_NAMES = [k for k in getattr(keyword, 'softkwlist', ['match', 'case', 'type']) if k != '_'] + [
